@@ -210,6 +210,11 @@ def _run_history(fb, x, z, ops, M, N, buf=None):
         elif op[0] == 'e':
             fb.estimate_channelized_stds(factor=2 * M, seed=1)      # the library's own mid-stream cache=False user
             y = None
+        elif op[0] == 'g':
+            # the read-only helpers of the object (frequency response) must not disturb the stream either
+            fb.get_response(fftlength=2 * M)
+            fb.tile_response(2, fftlength=2 * M)
+            y = None
         else:
             fb._reset_cache()
             y = None
@@ -229,7 +234,7 @@ def _expect(ops, M):
             fresh = False
         elif op[0] == 'n':
             exp.append(('z',))
-        elif op[0] == 'e':
+        elif op[0] in ('e', 'g'):
             exp.append(None)
         else:
             exp.append(None)
@@ -368,6 +373,8 @@ def case_stream(c):
                           'cache=False call on foreign data inserted at position %d of composition %s' % (i, comp))
             check_history(base[:i] + [('e',)] + base[i:], 'stds_estimate_disturbs_cache',
                           'estimate_channelized_stds() inserted at position %d of composition %s' % (i, comp))
+            check_history(base[:i] + [('g',)] + base[i:], 'response_helpers_disturb_stream',
+                          'get_response()/tile_response() inserted at position %d of composition %s' % (i, comp))
             check_history(base[:i] + [('r',)] + base[i:], 'reset_stream',
                           '_reset_cache() inserted at position %d of composition %s' % (i, comp))
     res['state_keys'] = sorted(skeys)
